@@ -120,7 +120,7 @@ PROPS = {
         level_note=LN + "Known finding D3 is excluded by an explicit hypothesis in the add_at theorem and by one predicate in the generator; its witness is replayed on every run.",
     ),
     "C06": dict(
-        streams=[S(c, focus="all", n_quick=60, small=False, valgrind=True, coverage=True) for c in ALL],
+        streams=[S(c, focus="all", n_quick=60, small=False, valgrind=True, coverage=True, plain_pass=True) for c in ALL],
         relevant=rel_c06,
         level_text=T("for the buffer containers no reachable state makes a checked access fault (every slot index below the allocated slot count, no modulo by zero); for every container the ledger theorems show destroy releases every owned block exactly once.") + " Partial by nature: use-after-free, uninitialised reads and pointer-level double frees in linked structures are runtime behaviour the models cannot exhibit; they are observed on sampled histories under ASan/UBSan (and valgrind in the thorough tier) with two allocation ledgers.",
         level_note=LN + "Memory errors at the C level are observed, not proved.",
@@ -168,7 +168,7 @@ PROPS = {
         level_note=LN,
     ),
     "C14": dict(
-        streams=[S(c, focus="all", n_quick=50, small=False, alloc_modes=True, coverage=True) for c in SEQ + MAPS + ["pqueue", "rbuf"]],
+        streams=[S(c, focus="all", n_quick=50, small=False, alloc_modes=True, coverage=True, plain_pass=True) for c in SEQ + MAPS + ["pqueue", "rbuf"]],
         relevant=rel_c14,
         level_text=T("every container state records the allocator triple it was built with (configured or C library), every allocation and release of every model operation goes through that triple (two separately counted ledgers), derived containers and wrapped inner containers inherit it exactly where the C code copies the three function pointers; outputs and states depend on the ledger only through the refusal schedule.") + " Because this is a property of which function the C text calls, the weight is on the tie: every operation runs with two ledgers armed (configured / libc via linker --wrap) and every history is re-run on a static and on a dynamic pool of the library itself.",
         level_note=LN,
